@@ -1200,6 +1200,7 @@ impl<Alloc: BrotliAlloc> BrotliEncoderStateStruct<Alloc> {
             true
         };
         let max_dict_size: usize = (1usize << self.params.lgwin).wrapping_sub(16);
+        DestroyHasher(&mut self.m8, &mut self.hasher_); // the index being replaced goes back to its allocator
         self.hasher_ = opt_hasher;
         let mut dict_size: usize = size;
         if !self.ensure_initialized() {
